@@ -1249,7 +1249,15 @@ run_parked(long idx, vf_rng *r, int pi, bool raw, int tran, int disruption, int 
 		snprintf(after, sizeof(after), "%s-%d", dnames[disruption], target + 1);
 		nng_socket_set_int(c.s, NNG_OPT_SENDBUF, 2);
 	} else if (disruption == D_FULL_RECV || full_send) {
-		snprintf(after, sizeof(after), "%s-%dto%d", dnames[disruption], resize_from[target], resize_to[target]);
+		// half of these cases (by case index and seed) on a queue that has been
+		// deeper before: growing back then stays inside the storage the queue
+		// already has, which is a path of its own in the resize code
+		bool deeper_before = (vf_mix64(vf_seed ^ ((uint64_t) idx * 0x9e3779b97f4a7c15ULL)) & 1) != 0;
+		snprintf(after, sizeof(after), "%s-%dto%d%s", dnames[disruption], resize_from[target], resize_to[target], deeper_before ? "-was16" : "");
+		if (deeper_before) {
+			nng_socket_set_int(c.s, disruption == D_FULL_RECV ? NNG_OPT_RECVBUF : NNG_OPT_SENDBUF, 16);
+			vf_stat("resize_cases_on_queue_that_was_deeper", 1);
+		}
 		nng_socket_set_int(c.s, disruption == D_FULL_RECV ? NNG_OPT_RECVBUF : NNG_OPT_SENDBUF, resize_from[target]);
 	}
 	if (fdmode == 0) fetch_fds(&c, false);
